@@ -899,21 +899,44 @@ pub struct Wire10Spec {
     pub ops: Vec<Repr>,
 }
 
-fn round_trip<G: LibG, F: RF>(k: &BigUint, gen: (F, F), reprs: &[Repr], budget: u64, prop: &str, res: &mut RunResult, dg: &mut Digest) {
-    // the model's affine point, computed independently
-    let mp = match pmul(&Some(gen), k) {
-        Some(p) => p,
-        None => return,
-    };
-    res.count(if mp.1.is_odd() { "parity_odd" } else { "parity_even" });
-    res.count(&format!("{}_parity_{}", G::NAME, if mp.1.is_odd() { "odd" } else { "even" }));
-    let refs: Vec<Vec<u8>> = FMTS.iter().map(|f| ref_encode(&mp, *f)).collect();
-    let mut first: Option<Vec<Vec<u8>>> = None;
+/// reference affine coordinates of a library value, computed in the model from the Jacobian
+/// triple read through the public accessors (x/z^2, y/z^3); None for z = 0
+fn model_affine<G: LibG, F: RF>(p: &G) -> Option<(F, F)> {
+    let (x, y, z) = p.jac_coords();
+    let x = F::from_parts(&x)?;
+    let y = F::from_parts(&y)?;
+    let z = F::from_parts(&z)?;
+    let zi = z.inv()?;
+    let zi2 = zi.sqr();
+    Some((x.mul(&zi2), y.mul(&zi2.mul(&zi))))
+}
+
+fn round_trip<G: LibG, F: RF>(k: &BigUint, reprs: &[Repr], budget: u64, prop: &str, res: &mut RunResult, dg: &mut Digest) {
+    let mut first: Option<((F, F), Vec<Vec<u8>>)> = None;
     for (step, repr) in reprs.iter().enumerate() {
         res.steps += 1;
         let mut outcome: Vec<u8> = Vec::new();
+        let mut parity = "none";
+        let mut abandoned = false;
         let r = guarded(budget * 16, || -> Check {
             let p: G = make_repr::<G>(k, repr);
+            // the oracle: SM9 encoding of P's own affine coordinates, computed in the model
+            // from the representative's Jacobian triple. It does not depend on whether the
+            // library's group arithmetic produced the "right" multiple (that is C16/C05).
+            let mp: (F, F) = match model_affine::<G, F>(&p) {
+                Some(m) => m,
+                None => {
+                    abandoned = true;
+                    return Ok(());
+                }
+            };
+            if !model::on_curve(&mp.0, &mp.1) {
+                // not a point of the group: outside C10's quantifier
+                abandoned = true;
+                return Ok(());
+            }
+            parity = if mp.1.is_odd() { "odd" } else { "even" };
+            let refs: Vec<Vec<u8>> = FMTS.iter().map(|f| ref_encode(&mp, *f)).collect();
             let mut encs = Vec::new();
             for (fi, fmt) in FMTS.iter().enumerate() {
                 let e = p.enc(*fmt);
@@ -931,6 +954,10 @@ fn round_trip<G: LibG, F: RF>(k: &BigUint, gen: (F, F), reprs: &[Repr], budget: 
                         if !(d == p) || !(p == d) {
                             return Err(("I10.3".into(), format!("{} {}: decode(encode(P)) != P for {}*generator ('{}')", G::NAME, fmt.name(), hex(&be32(k)), repr.name())));
                         }
+                        // the decoded value denotes the same affine point in the model too
+                        if model_affine::<G, F>(&d) != Some(mp.clone()) {
+                            return Err(("I10.3".into(), format!("{} {}: the decoded value is not the point that was encoded, for {}*generator ('{}')", G::NAME, fmt.name(), hex(&be32(k)), repr.name())));
+                        }
                         if d.enc(*fmt) != e {
                             return Err(("I10.3".into(), format!("{} {}: re-encoding the decoded point differs for {}*generator", G::NAME, fmt.name(), hex(&be32(k)))));
                         }
@@ -938,16 +965,24 @@ fn round_trip<G: LibG, F: RF>(k: &BigUint, gen: (F, F), reprs: &[Repr], budget: 
                 }
                 encs.push(e);
             }
-            if let Some(f) = &first {
-                if *f != encs {
-                    return Err(("I10.2".into(), format!("{} encodings of {}*generator depend on the representative ('{}' vs first)", G::NAME, hex(&be32(k)), repr.name())));
+            match &first {
+                Some((fp, fe)) => {
+                    // only representatives of the same point (in the model) are compared
+                    if *fp == mp && *fe != encs {
+                        return Err(("I10.2".into(), format!("{} encodings of {}*generator depend on the representative ('{}' vs first)", G::NAME, hex(&be32(k)), repr.name())));
+                    }
                 }
-            } else {
-                first = Some(encs);
+                None => first = Some((mp, encs)),
             }
             Ok(())
         });
-        res.reach(format!("{}|{}|parity={}", G::NAME, repr.name(), if mp.1.is_odd() { "odd" } else { "even" }));
+        if abandoned {
+            res.count("representative_not_a_group_point");
+        }
+        if parity != "none" {
+            res.count(&format!("{}_parity_{}", G::NAME, parity));
+            res.reach(format!("{}|{}|parity={}", G::NAME, repr.name(), parity));
+        }
         let viol = match r {
             Err(msg) => {
                 res.panics.push((step, msg.clone()));
@@ -983,8 +1018,8 @@ pub fn exec10(spec: &Wire10Spec, prop: &str) -> RunResult {
     let k = from_be(&unhex(&spec.k)) % r;
     let k = if k.is_zero() { BigUint::one() } else { k };
     match spec.g {
-        Grp::G1 => round_trip::<G1, Q>(&k, model::g1_gen(), &spec.ops, spec.budget, prop, &mut res, &mut dg),
-        Grp::G2 => round_trip::<G2, Q2>(&k, model::g2_gen(), &spec.ops, spec.budget, prop, &mut res, &mut dg),
+        Grp::G1 => round_trip::<G1, Q>(&k, &spec.ops, spec.budget, prop, &mut res, &mut dg),
+        Grp::G2 => round_trip::<G2, Q2>(&k, &spec.ops, spec.budget, prop, &mut res, &mut dg),
     }
     res.fingerprint = dg.0;
     res
